@@ -38,6 +38,9 @@ type inputModel struct {
 	fields map[string]uint64 // receiver leaf fields (Go selector path -> value)
 	ftypes map[string]types.Type
 	arrays map[string][]byte
+	// second receiver state (non-interference replays)
+	fields2 map[string]uint64
+	arrays2 map[string][]byte
 }
 
 func replayDir(prop string) string {
@@ -171,7 +174,9 @@ func extractModel(e *Encoder, o *Obligation) ([]*inputModel, bool, string) {
 			im.fields = map[string]uint64{}
 			im.ftypes = map[string]types.Type{}
 			im.arrays = map[string][]byte{}
-			e.leafFieldReqs(im, v.T, pt.Elem(), "", &reqs, 0)
+			im.fields2 = map[string]uint64{}
+			im.arrays2 = map[string][]byte{}
+			e.leafFieldReqs(im, v.T, pt.Elem(), "", &reqs, 0, o.NIMap)
 		}
 	}
 	// AES decode template: the decrypted bytes are an uninterpreted function of the
@@ -194,6 +199,7 @@ func extractModel(e *Encoder, o *Obligation) ([]*inputModel, bool, string) {
 	}
 	try := func(extra []*Term) (SolveResult, bool) {
 		as := append([]*Term{}, e.assumptions[:o.NAssume]...)
+		as = append(as, o.Extra...)
 		as = append(as, o.Guard, c.Not(o.Goal))
 		as = append(as, extra...)
 		as = append(as, e.boundedFoldFacts(as, replayBytes+1)...)
@@ -236,7 +242,7 @@ func extractModel(e *Encoder, o *Obligation) ([]*inputModel, bool, string) {
 	return ims, true, ""
 }
 
-func (e *Encoder) leafFieldReqs(im *inputModel, ref *Term, t types.Type, path string, reqs *[]modelReq, depth int) {
+func (e *Encoder) leafFieldReqs(im *inputModel, ref *Term, t types.Type, path string, reqs *[]modelReq, depth int, ni map[*Term]*Term) {
 	if depth > 4 {
 		return
 	}
@@ -260,8 +266,11 @@ func (e *Encoder) leafFieldReqs(im *inputModel, ref *Term, t types.Type, path st
 			im.ftypes[p] = f.Type()
 			pp := p
 			*reqs = append(*reqs, modelReq{c.Select(arr, a.Idx), func(x uint64) { im.fields[pp] = x }})
+			if ni != nil {
+				*reqs = append(*reqs, modelReq{c.Subst(c.Select(arr, a.Idx), ni), func(x uint64) { im.fields2[pp] = x }})
+			}
 		case KStruct:
-			e.leafFieldReqs(im, a.Ref, f.Type(), p, reqs, depth+1)
+			e.leafFieldReqs(im, a.Ref, f.Type(), p, reqs, depth+1, ni)
 		case KArray:
 			at := f.Type().Underlying().(*types.Array)
 			if b, ok := at.Elem().Underlying().(*types.Basic); ok && b.Kind() == types.Uint8 && at.Len() <= 64 {
@@ -271,9 +280,17 @@ func (e *Encoder) leafFieldReqs(im *inputModel, ref *Term, t types.Type, path st
 				mem := e.get(e.entry, "mem:bv8", Arr(RefS, Arr(BV64, BV8)))
 				buf := make([]byte, at.Len())
 				im.arrays[p] = buf
+				buf2 := make([]byte, at.Len())
+				if ni != nil {
+					im.arrays2[p] = buf2
+				}
 				for k := int64(0); k < at.Len(); k++ {
 					k := k
-					*reqs = append(*reqs, modelReq{c.Select(c.Select(mem, a.Ref), c.BVLit(uint64(k), 64)), func(x uint64) { buf[k] = byte(x) }})
+					el := c.Select(c.Select(mem, a.Ref), c.BVLit(uint64(k), 64))
+					*reqs = append(*reqs, modelReq{el, func(x uint64) { buf[k] = byte(x) }})
+					if ni != nil {
+						*reqs = append(*reqs, modelReq{c.Subst(el, ni), func(x uint64) { buf2[k] = byte(x) }})
+					}
 				}
 			}
 		}
@@ -508,6 +525,9 @@ func genReplayTest(w *World, e *Encoder, o *Obligation, ims []*inputModel) (stri
 			fmt.Fprintf(&body, "\t%s := in_%s\n\t_ = %s\n", p.Name(), p.Name(), p.Name())
 		}
 	}
+	if o.Kind == "noninterference" {
+		return genNIReplay(w, e, o, ims, pkg, q, imports, noteImports)
+	}
 	checkExpr := ""
 	var olds []string
 	if o.Kind == "ensures" && o.Expr != "" {
@@ -640,4 +660,79 @@ func (e *Encoder) boundedFoldFacts(as []*Term, n int) []*Term {
 
 func isAESDecode(e *Encoder) bool {
 	return e.top != nil && e.top.Name() == "DecodeFromBytes" && strings.Contains(e.top.String(), "AES128CBC")
+}
+
+// genNIReplay: decode the same bytes into the receiver in the two prior states of the
+// model and into a fresh one; the named field must come out the same.
+func genNIReplay(w *World, e *Encoder, o *Obligation, ims []*inputModel, pkg *types.Package, q types.Qualifier, imports map[string]string, noteImports func(types.Type)) (string, bool, string) {
+	fn := e.top
+	imports["reflect"] = "reflect"
+	var body strings.Builder
+	recv := ims[0]
+	if recv.fields == nil {
+		return "", false, "receiver is not a struct pointer"
+	}
+	pt := fn.Params[0].Type().Underlying().(*types.Pointer).Elem()
+	mk := func(name string, fields map[string]uint64, arrays map[string][]byte) {
+		fmt.Fprintf(&body, "\t%s := new(%s)\n", name, types.TypeString(pt, q))
+		for path, v := range fields {
+			noteImports(recv.ftypes[path])
+			fmt.Fprintf(&body, "\t%s%s = %s\n", name, path, goLit(recv.ftypes[path], v, q))
+		}
+		for path, b := range arrays {
+			fmt.Fprintf(&body, "\tcopy(%s%s[:], %s)\n", name, path, bytesLit(b))
+		}
+	}
+	mk("r1", recv.fields, recv.arrays)
+	mk("r2", recv.fields2, recv.arrays2)
+	mk("r0", nil, nil)
+	var argsFor func(suffix string) ([]string, bool)
+	argsFor = func(suffix string) ([]string, bool) {
+		var out []string
+		for i, im := range ims[1:] {
+			p := fn.Params[i+1]
+			t := p.Type()
+			name := fmt.Sprintf("a%d_%s", i, suffix)
+			switch {
+			case im.bytes != nil && kindOf(t) == KSlice:
+				fmt.Fprintf(&body, "\t%s := append(make([]byte, 0, %d), %s...)\n", name, len(im.bytes), bytesLit(im.bytes))
+			case kindOf(t) == KScalar && scalarSort(t).K != SReal:
+				fmt.Fprintf(&body, "\t%s := %s\n", name, goLit(t, im.scalar, q))
+			case kindOf(t) == KIface && strings.HasSuffix(t.String(), "gopacket.DecodeFeedback"):
+				imports["github.com/google/gopacket"] = "gopacket"
+				fmt.Fprintf(&body, "\tvar %s %s = gopacket.NilDecodeFeedback\n", name, types.TypeString(t, q))
+			default:
+				return nil, false
+			}
+			out = append(out, name)
+		}
+		return out, true
+	}
+	for _, r := range []string{"r1", "r2", "r0"} {
+		args, ok := argsFor(r)
+		if !ok {
+			return "", false, "an input has no replay template"
+		}
+		fmt.Fprintf(&body, "\terr_%s := %s.%s(%s)\n", r, r, fn.Name(), strings.Join(args, ", "))
+	}
+	if o.Expr == "<accept>" {
+		body.WriteString("\tif (err_r1 == nil) != (err_r0 == nil) || (err_r2 == nil) != (err_r0 == nil) {\n\t\tfmt.Println(\"VERIF-REPLAY: violated: acceptance depends on the earlier state of the value\")\n\t\treturn\n\t}\n")
+	} else {
+		fmt.Fprintf(&body, "\tif err_r0 == nil && err_r1 == nil && err_r2 == nil {\n")
+		fmt.Fprintf(&body, "\t\tif !sameValue(r1%s, r0%s) || !sameValue(r2%s, r0%s) {\n", o.Expr, o.Expr, o.Expr, o.Expr)
+		fmt.Fprintf(&body, "\t\t\tfmt.Printf(\"VERIF-REPLAY: violated: field %s differs after decoding the same bytes: reused=%%v / %%v fresh=%%v\\n\", r1%s, r2%s, r0%s)\n\t\t\treturn\n\t\t}\n\t}\n", o.Expr, o.Expr, o.Expr, o.Expr)
+	}
+	body.WriteString("\tfmt.Println(\"VERIF-REPLAY: holds\")\n")
+	var src strings.Builder
+	fmt.Fprintf(&src, "//go:build verif\n\npackage %s\n\nimport (\n", pkg.Name())
+	for path, name := range imports {
+		fmt.Fprintf(&src, "\t%s %q\n", name, path)
+	}
+	src.WriteString(")\n\nvar _ = strings.Contains\nvar _ = os.Exit\n\n")
+	src.WriteString("func sameValue(a, b any) bool {\n\tva, vb := reflect.ValueOf(a), reflect.ValueOf(b)\n\tif va.Kind() == reflect.Slice && vb.Kind() == reflect.Slice && va.Len() == 0 && vb.Len() == 0 {\n\t\treturn true\n\t}\n\treturn reflect.DeepEqual(a, b)\n}\n\n")
+	src.WriteString("func TestVerifReplay(t *testing.T) {\n")
+	src.WriteString("\tdefer func() {\n\t\tif r := recover(); r != nil {\n\t\t\tfmt.Printf(\"VERIF-REPLAY: panic: %v\\n\", r)\n\t\t}\n\t}()\n")
+	src.WriteString(body.String())
+	src.WriteString("}\n")
+	return src.String(), true, ""
 }
